@@ -14,10 +14,12 @@ use std::path::Path;
 use verif_harness::util::*;
 
 // ------------------------------------------------------------------ options (yara.proto)
-/// (yara.field_options) = extension 51504 of FieldOptions: { name = 1 (string), ignore = 2 (bool) }
-fn field_options(fd: &FieldDescriptor) -> (Option<String>, bool) {
-    let mut name = None;
-    let mut ignore = false;
+/// (yara.field_options) = extension 51504 of FieldOptions:
+/// { name = 1 (string), ignore = 2 (bool), acl = 3, lowercase = 4 (bool), fmt = 5 (string), deprecation_notice = 6 }
+#[derive(Default, Clone)]
+struct FOpts { name: Option<String>, ignore: bool, acl: bool, lowercase: bool, fmt: Option<String>, deprecated: bool }
+fn fopts(fd: &FieldDescriptor) -> FOpts {
+    let mut o = FOpts::default();
     let proto = fd.proto();
     if let Some(opts) = proto.options.as_ref() {
         for (num, v) in opts.special_fields.unknown_fields().iter() {
@@ -27,8 +29,12 @@ fn field_options(fd: &FieldDescriptor) -> (Option<String>, bool) {
                 while let Ok(Some(tag)) = is.read_raw_tag_or_eof() {
                     let (f, wt) = (tag >> 3, tag & 7);
                     match (f, wt) {
-                        (1, 2) => { name = is.read_string().ok(); }
-                        (2, 0) => { ignore = is.read_bool().unwrap_or(false); }
+                        (1, 2) => { o.name = is.read_string().ok(); }
+                        (2, 0) => { o.ignore = is.read_bool().unwrap_or(false); }
+                        (3, 2) => { o.acl = true; let _ = is.read_bytes(); }
+                        (4, 0) => { o.lowercase = is.read_bool().unwrap_or(false); }
+                        (5, 2) => { o.fmt = is.read_string().ok(); }
+                        (6, 2) => { o.deprecated = true; let _ = is.read_bytes(); }
                         (_, 0) => { let _ = is.read_raw_varint64(); }
                         (_, 1) => { let _ = is.read_fixed64(); }
                         (_, 2) => { let _ = is.read_bytes(); }
@@ -39,8 +45,11 @@ fn field_options(fd: &FieldDescriptor) -> (Option<String>, bool) {
             }
         }
     }
-    (name, ignore)
+    o
 }
+fn field_options(fd: &FieldDescriptor) -> (Option<String>, bool) { let o = fopts(fd); (o.name, o.ignore) }
+/// the field carries an option that must not affect the value (everything but name / ignore / acl)
+fn annotated(fd: &FieldDescriptor) -> bool { let o = fopts(fd); o.lowercase || o.fmt.is_some() || o.deprecated }
 fn yara_name(fd: &FieldDescriptor) -> String { field_options(fd).0.unwrap_or_else(|| fd.name().to_string()) }
 fn ignored(fd: &FieldDescriptor) -> bool { field_options(fd).1 }
 
@@ -135,6 +144,11 @@ enum Query {
     Defined(Vec<Step>), Eq(Vec<Step>, Sc), Len(Vec<Step>, i64),
     Any(Vec<Step>, Vec<Step>, Sc), All(Vec<Step>, Vec<Step>, Sc),
     MapAny(Vec<Step>, Step, Vec<Step>, Sc),
+    /// conditions that read the exact bytes of a string
+    StrLen(Vec<Step>, i64), Contains(Vec<Step>, Vec<u8>), StartsWith(Vec<Step>, Vec<u8>), EndsWith(Vec<Step>, Vec<u8>),
+    /// a module function whose result is the value of a field of the output message:
+    /// (text of the call, the field it must agree with, literal; None = `defined <call>`)
+    Func(String, Vec<Step>, Option<Sc>),
 }
 
 fn str_lit(b: &[u8]) -> String {
@@ -172,6 +186,12 @@ fn query_text(module: &str, q: &Query) -> String {
         Query::Len(p, n) => format!("{}.len() == {}", path_text(module, p), n),
         Query::Any(p, sub, l) => format!("for any x in {} : ({})", path_text(module, p), eq_text(&sub_text("x", sub), l)),
         Query::All(p, sub, l) => format!("for all x in {} : ({})", path_text(module, p), eq_text(&sub_text("x", sub), l)),
+        Query::StrLen(p, n) => format!("{}.len() == {}", path_text(module, p), n),
+        Query::Contains(p, x) => format!("{} contains {}", path_text(module, p), str_lit(x)),
+        Query::StartsWith(p, x) => format!("{} startswith {}", path_text(module, p), str_lit(x)),
+        Query::EndsWith(p, x) => format!("{} endswith {}", path_text(module, p), str_lit(x)),
+        Query::Func(call, _, Some(l)) => eq_text(call, l),
+        Query::Func(call, _, None) => format!("defined {}", call),
         Query::MapAny(p, k, sub, l) => format!("for any k, v in {} : (k == {} and {})", path_text(module, p),
             match k { Step::KeyI(i) => int_lit(*i), Step::KeyS(s) => str_lit(s), _ => unreachable!() }, eq_text(&sub_text("v", sub), l)),
     }
@@ -201,6 +221,12 @@ fn coq_query(q: &Query, it: &mut Interner) -> String {
         Query::Len(p, n) => format!("QLen {} {}", coq_steps(p, it), coq_z(*n as i128)),
         Query::Any(p, s, l) => format!("QAny {} {} {}", coq_steps(p, it), coq_steps(s, it), coq_lit(l, it)),
         Query::All(p, s, l) => format!("QAll {} {} {}", coq_steps(p, it), coq_steps(s, it), coq_lit(l, it)),
+        Query::StrLen(p, n) => format!("QStrLen {} {}", coq_steps(p, it), coq_z(*n as i128)),
+        Query::Contains(p, x) => format!("QContains {} {}", coq_steps(p, it), coq_bytes(x)),
+        Query::StartsWith(p, x) => format!("QStartsWith {} {}", coq_steps(p, it), coq_bytes(x)),
+        Query::EndsWith(p, x) => format!("QEndsWith {} {}", coq_steps(p, it), coq_bytes(x)),
+        Query::Func(_, p, Some(l)) => format!("QEq {} {}", coq_steps(p, it), coq_lit(l, it)),
+        Query::Func(_, p, None) => format!("QDefined {}", coq_steps(p, it)),
         Query::MapAny(p, k, s, l) => {
             let kv = match k { Step::KeyI(i) => format!("(VInt {})", coq_z(*i as i128)), Step::KeyS(b) => format!("(VStr {})", coq_n(it.id(b))), _ => unreachable!() };
             format!("QMapAny {} {} {} {}", coq_steps(p, it), kv, coq_steps(s, it), coq_lit(l, it))
@@ -233,10 +259,44 @@ fn other_of(l: &Sc) -> Sc {
 }
 fn usable(l: &Sc) -> bool { match l { Sc::F(f) => f.is_finite() && !(*f == 0.0 && f.is_sign_negative()) && f.abs() < 1e15 && (f.abs() > 1e-5 || *f == 0.0), _ => true } }
 
+fn swapcase(b: &[u8]) -> Vec<u8> { b.iter().map(|c| if c.is_ascii_uppercase() { c.to_ascii_lowercase() } else if c.is_ascii_lowercase() { c.to_ascii_uppercase() } else { *c }).collect() }
+/// conditions that distinguish "the bytes are passed through unchanged" from case changes,
+/// trimming, truncation at NUL, and lossy re-encoding
+fn string_queries(p: &[Step], b: &[u8], out: &mut Vec<Query>) {
+    if b.len() > 64 { return; }
+    let n = b.len() as i64;
+    out.push(Query::StrLen(p.to_vec(), n));
+    out.push(Query::StrLen(p.to_vec(), n + 1));
+    if b.is_empty() { return; }
+    // a needle around the first "interesting" byte (upper case, NUL, space, non-ASCII), else the middle
+    let pos = b.iter().position(|c| c.is_ascii_uppercase() || *c == 0 || *c == b' ' || *c >= 0x80).unwrap_or(b.len() / 2);
+    let lo = pos.saturating_sub(1);
+    let hi = (pos + 2).min(b.len());
+    let needle = b[lo..hi].to_vec();
+    out.push(Query::Contains(p.to_vec(), needle.clone()));
+    let sw = swapcase(&needle);
+    if sw != needle { out.push(Query::Contains(p.to_vec(), sw)); }
+    let k = b.len().min(3);
+    out.push(Query::StartsWith(p.to_vec(), b[..k].to_vec()));
+    out.push(Query::EndsWith(p.to_vec(), b[b.len() - k..].to_vec()));
+    let sws = swapcase(&b[..k]);
+    if sws != b[..k] { out.push(Query::StartsWith(p.to_vec(), sws)); }
+    // the whole value in the other case must not compare equal
+    let sw_all = swapcase(b);
+    if sw_all != b { out.push(Query::Eq(p.to_vec(), Sc::S(sw_all))); out.push(Query::Eq(p.to_vec(), Sc::S(b.to_ascii_lowercase()))); }
+    // trimmed / truncated-at-NUL variants must not compare equal either
+    let trimmed: Vec<u8> = String::from_utf8_lossy(b).trim().as_bytes().to_vec();
+    if trimmed != b { out.push(Query::Eq(p.to_vec(), Sc::S(trimmed))); }
+    if let Some(z) = b.iter().position(|c| *c == 0) { out.push(Query::Eq(p.to_vec(), Sc::S(b[..z].to_vec()))); }
+}
+
 fn leaf_queries(p: &[Step], v: Option<Sc>, rt: &RuntimeType, out: &mut Vec<Query>) {
     out.push(Query::Defined(p.to_vec()));
     match v {
-        Some(l) => { if usable(&l) { out.push(Query::Eq(p.to_vec(), l.clone())); out.push(Query::Eq(p.to_vec(), other_of(&l))); } }
+        Some(l) => {
+            if usable(&l) { out.push(Query::Eq(p.to_vec(), l.clone())); out.push(Query::Eq(p.to_vec(), other_of(&l))); }
+            if let Sc::S(b) = &l { string_queries(p, b, out); }
+        }
         None => { if let Some(d) = default_of(rt) { out.push(Query::Eq(p.to_vec(), d)); } }
     }
 }
@@ -353,11 +413,13 @@ fn gen_scalar(rt: &RuntimeType, rng: &mut Rng) -> ReflectValueBox {
         RuntimeType::F32 => ReflectValueBox::F32(*rng.pick(&[0.0f32, 1.0, -1.5, 0.1, 16777216.0, 3.25])),
         RuntimeType::F64 => ReflectValueBox::F64(*rng.pick(&[0.0f64, 1.0, -2.5, 0.1, 1e10, 0.001, 123456.789])),
         RuntimeType::Bool => ReflectValueBox::Bool(rng.chance(1, 2)),
-        RuntimeType::String => ReflectValueBox::String(match rng.below(7) {
+        RuntimeType::String => ReflectValueBox::String(match rng.below(12) {
             0 => String::new(), 1 => "foo".into(), 2 => "a\"b\\c".into(), 3 => "x".repeat(300), 4 => "\u{fc}\u{f1}\u{ed} \u{4e2d}".into(),
-            5 => "with\0nul".into(), _ => format!("s{}", rng.below(1000)) }),
-        RuntimeType::VecU8 => ReflectValueBox::Bytes(match rng.below(5) {
-            0 => vec![], 1 => vec![0, 1, 0xff, 0], 2 => b"bytes".to_vec(), 3 => (0..=255u8).collect(), _ => vec![rng.below(256) as u8; 3] }),
+            5 => "with\0nul".into(), 6 => "FooBar".into(), 7 => "  Padded Value \t".into(), 8 => "MiXeD\0CaSe".into(), 9 => "UPPER lower \u{c4}\u{d6}".into(),
+            10 => "Trailing\0".into(), _ => format!("S{}x", rng.below(1000)) }),
+        RuntimeType::VecU8 => ReflectValueBox::Bytes(match rng.below(8) {
+            0 => vec![], 1 => vec![0, 1, 0xff, 0], 2 => b"bytes".to_vec(), 3 => (0..=255u8).collect(), 4 => b"AbC\xff\xfeDe".to_vec(),
+            5 => b" \tBytes With Space \n".to_vec(), 6 => b"\xc3\x28 Invalid UTF8 \xa0\xa1".to_vec(), _ => vec![rng.below(256) as u8; 3] }),
         RuntimeType::Enum(e) => { let vals: Vec<i32> = e.values().map(|v| v.value()).collect(); ReflectValueBox::Enum(e.clone(), *rng.pick(&vals)) }
         RuntimeType::Message(md) => ReflectValueBox::Message(gen_msg(md, rng, 1)),
     }
@@ -378,7 +440,7 @@ fn gen_msg(md: &MessageDescriptor, rng: &mut Rng, depth: usize) -> Box<dyn Messa
         match fd.runtime_field_type() {
             RuntimeFieldType::Singular(rt) => {
                 if matches!(rt, RuntimeType::Message(_)) && depth > 2 { continue; }
-                if fd.is_required() || rng.chance(p_set, 10) { fd.set_singular_field(&mut *msg, gen_scalar(&rt, rng)); }
+                if fd.is_required() || annotated(&fd) || rng.chance(p_set, 10) { fd.set_singular_field(&mut *msg, gen_scalar(&rt, rng)); }
             }
             RuntimeFieldType::Repeated(rt) => {
                 if matches!(rt, RuntimeType::Message(_)) && depth > 2 { continue; }
@@ -417,21 +479,89 @@ fn ir_field_indexes(ir: &str) -> Vec<usize> {
 }
 
 // ------------------------------------------------------------------ one case
-struct CaseOut { coq: String, json: String, queries: usize, skipped: usize, kinds: Vec<&'static str>, true_verdicts: usize }
+struct CaseOut { label: String, coq: String, json: String, queries: usize, skipped: usize, kinds: Vec<&'static str>, true_verdicts: usize }
 
-/// `supply`: give `msg` to the scanner through set_module_output; otherwise the module computes it from `data`
-fn run_case(module: &str, msg: &dyn MessageDyn, data: &[u8], supply: bool, label: &str, rng: &mut Rng, max_q: usize, template: bool) -> Result<Option<CaseOut>, String> {
+/// canonical text of a message (map entries sorted), to compare what ScanResults hands back with what was supplied
+fn canon(msg: &dyn MessageDyn) -> String {
+    fn val(v: &ReflectValueRef) -> String {
+        match v {
+            ReflectValueRef::Message(m) => canon(&**m),
+            ReflectValueRef::F32(x) => format!("f32:{:08x}", x.to_bits()),
+            ReflectValueRef::F64(x) => format!("f64:{:016x}", x.to_bits()),
+            ReflectValueRef::String(s) => format!("s:{}", hex(s.as_bytes())),
+            ReflectValueRef::Bytes(b) => format!("b:{}", hex(b)),
+            ReflectValueRef::Enum(_, n) => format!("e:{}", n),
+            other => format!("{:?}", other),
+        }
+    }
     let md = msg.descriptor_dyn();
-    let mut queries = vec![];
-    let mut tmpl = vec![];
-    enumerate(&md, Some(msg), &[], 0, rng, &mut queries, &mut tmpl);
-    if template { queries = tmpl; if queries.is_empty() { return Ok(None); } }
-    // sample if there are too many
-    while queries.len() > max_q { let i = rng.below(queries.len() as u64) as usize; queries.swap_remove(i); }
+    let mut out = vec![];
+    for fd in md.fields() {
+        match fd.runtime_field_type() {
+            RuntimeFieldType::Singular(_) => if let Some(v) = fd.get_singular(msg) { out.push(format!("{}={}", fd.number(), val(&v))); },
+            RuntimeFieldType::Repeated(_) => out.push(format!("{}=[{}]", fd.number(), fd.get_repeated(msg).into_iter().map(|v| val(&v)).collect::<Vec<_>>().join(","))),
+            RuntimeFieldType::Map(_, _) => { let mut e: Vec<String> = fd.get_map(msg).into_iter().map(|(k, v)| format!("{}:{}", val(&k), val(&v))).collect(); e.sort(); out.push(format!("{}={{{}}}", fd.number(), e.join(","))); }
+        }
+    }
+    format!("{{{}}}", out.join(";"))
+}
+
+/// how the module output reaches the scanner in one scan of a sequence
+enum Supply { Computed, Boxed(Box<dyn MessageDyn>), Raw(Box<dyn MessageDyn>) }
+
+/// conditions calling module functions that read the output message (ctx.module_output::<T>()):
+/// their verdicts with computed and with supplied output must agree
+fn function_conditions(module: &str) -> Vec<&'static str> {
+    match module {
+        "pe" => vec!["pe.is_32bit()", "pe.is_64bit()", "pe.is_dll()", "defined pe.is_dll()", "pe.section_index(\".text\") >= 0", "defined pe.section_index(0)",
+                     "defined pe.rva_to_offset(4096)", "pe.imports(\"kernel32.dll\")", "pe.imports(pe.IMPORT_ANY, \"kernel32.dll\", \"ExitProcess\") >= 0",
+                     "pe.exports(\"DllMain\")", "pe.locale(0x0409)", "pe.language(9)", "defined pe.rich_signature.toolid(1)", "pe.rich_signature.version(1) >= 0",
+                     "defined pe.import_rva(\"kernel32.dll\", \"ExitProcess\")"],
+        "elf" => vec!["defined elf.import_md5()", "defined elf.telfhash()", "elf.import_md5() == \"\""],
+        "macho" => vec!["defined macho.file_index_for_arch(7)", "macho.has_dylib(\"/usr/lib/libSystem.B.dylib\")", "macho.has_rpath(\"@loader_path/../lib\")",
+                        "macho.has_entitlement(\"com.apple.security.get-task-allow\")", "macho.has_import(\"_printf\")", "macho.has_export(\"_main\")",
+                        "defined macho.dylib_hash()", "defined macho.entitlement_hash()", "defined macho.import_hash()", "defined macho.export_hash()"],
+        "dex" => vec!["dex.contains_string(\"a\")", "dex.contains_method(\"<init>\")", "dex.contains_class(\"Ljava/lang/Object;\")", "defined dex.checksum()", "defined dex.signature()"],
+        "crx" => vec!["defined crx.permhash()", "crx.permhash() == \"\""],
+        _ => vec![],
+    }
+}
+
+/// One compiler, one scanner, a sequence of scans of `data`, each with its own way of providing the
+/// module output.  One case per scan: the message that scan must observe, every query's verdict,
+/// the field indexes of the compiled rules, function verdict pairs and the ScanResults view.
+fn run_steps(module: &str, md: &MessageDescriptor, data: &[u8], steps: Vec<(Supply, String)>, rng: &mut Rng, max_q: usize, template: bool, with_functions: bool) -> Result<Vec<CaseOut>, String> {
+    // queries: over every message that will be observed (for a computed step: the module's own output)
+    let own: Option<Box<dyn MessageDyn>> = {
+        let rules = yara_x::compile(format!("import \"{}\" rule x {{ condition: true }}", module).as_str()).map_err(|e| e.to_string())?;
+        let mut sc = yara_x::Scanner::new(&rules);
+        let r = sc.scan(data).map_err(|e| format!("scan: {e}"))?;
+        r.module_output(module).map(|m| m.clone_box())
+    };
+    let mut queries: Vec<Query> = vec![];
+    let mut seen = std::collections::HashSet::new();
+    for (sup, _) in &steps {
+        let m: Option<&dyn MessageDyn> = match sup { Supply::Computed => own.as_deref(), Supply::Boxed(m) | Supply::Raw(m) => Some(&**m) };
+        let Some(m) = m else { continue };
+        let (mut q, mut t) = (vec![], vec![]);
+        enumerate(md, Some(m), &[], 0, rng, &mut q, &mut t);
+        if template { q = t; }
+        if module == "test_proto2" && !template {
+            // test_proto2.get_foo() returns string_foo of the output message
+            let p = vec![Step::Field("string_foo".into())];
+            let v = md.field_by_name("string_foo").and_then(|fd| fd.get_singular(m)).as_ref().and_then(scalar_of);
+            q.push(Query::Func("test_proto2.get_foo()".into(), p.clone(), None));
+            if let Some(l) = v { q.push(Query::Func("test_proto2.get_foo()".into(), p.clone(), Some(l.clone()))); q.push(Query::Func("test_proto2.get_foo()".into(), p.clone(), Some(other_of(&l)))); }
+        }
+        let budget = max_q / steps.len().max(1) + 1;
+        while q.len() > budget { let i = rng.below(q.len() as u64) as usize; q.swap_remove(i); }
+        for x in q { let key = query_text(module, &x); if seen.insert(key) { queries.push(x); } }
+    }
+    if queries.is_empty() { return Ok(vec![]); }
     let mut comp = yara_x::Compiler::new();
     let ir = IrBuf(Default::default());
     comp.set_ir_writer(ir.clone());
-    let mut accepted: Vec<(usize, String, Vec<usize>)> = vec![];
+    let mut accepted: Vec<(usize, String, Option<Vec<usize>>)> = vec![];
     let mut skipped = 0usize;
     let mut first_skip = String::new();
     for (i, q) in queries.iter().enumerate() {
@@ -439,34 +569,83 @@ fn run_case(module: &str, msg: &dyn MessageDyn, data: &[u8], supply: bool, label
         let src = format!("import \"{}\"\nrule q{} {{ condition: {} }}", module, i, text);
         ir.0.lock().unwrap().clear();
         match comp.add_source(src.as_str()) {
-            Ok(_) => { let dump = String::from_utf8_lossy(&ir.0.lock().unwrap()).into_owned(); accepted.push((i, text, ir_field_indexes(&dump))); }
+            Ok(_) => {
+                let dump = String::from_utf8_lossy(&ir.0.lock().unwrap()).into_owned();
+                let idx = if matches!(q, Query::Func(..)) { None } else { Some(ir_field_indexes(&dump)) };
+                accepted.push((i, text, idx));
+            }
             Err(e) => { skipped += 1; if first_skip.is_empty() { first_skip = format!("{} :: {}", text, e.to_string().lines().next().unwrap_or("")); } }
         }
     }
-    let rules = comp.build();
-    let mut sc = yara_x::Scanner::new(&rules);
-    if supply { sc.set_module_output(msg.clone_box()).map_err(|e| format!("set_module_output: {e}"))?; }
-    let res = sc.scan(data).map_err(|e| format!("scan: {e}"))?;
-    let matched: std::collections::HashSet<String> = res.matching_rules().map(|r| r.identifier().to_string()).collect();
-    let mut it = Interner::new();
-    let ty = coq_msg_ty(&md, &mut it, 0);
-    let val = coq_msg(msg, &mut it);
-    let mut qs = vec![];
-    let mut jq = vec![];
-    let mut kinds = vec![];
-    let mut trues = 0;
-    for (i, text, idx) in &accepted {
-        let v = matched.contains(&format!("q{}", i));
-        if v { trues += 1; }
-        qs.push(format!("({}, {}, Some {})", coq_query(&queries[*i], &mut it), coq_bool(v), coq_list(idx, |x| coq_nat(*x))));
-        jq.push(format!("[{},{},{:?}]", json_str(text), v, idx));
-        kinds.push(match &queries[*i] { Query::Defined(_) => "q:defined", Query::Eq(..) => "q:eq", Query::Len(..) => "q:len", Query::Any(..) => "q:for-any", Query::All(..) => "q:for-all", Query::MapAny(..) => "q:map-for-any" });
+    let mut funcs: Vec<(usize, &'static str)> = vec![];
+    if with_functions {
+        for (k, cond) in function_conditions(module).into_iter().enumerate() {
+            let src = format!("import \"{}\"\nrule f{} {{ condition: {} }}", module, k, cond);
+            if comp.add_source(src.as_str()).is_ok() { funcs.push((k, cond)); }
+        }
     }
-    let coq = format!("mk \"{}\" (fun nm => ({}, {}, [{}]))", module, ty, val, qs.join("; "));
-    let json = format!("{{\"label\":{},\"module\":{},\"supplied\":{},\"data_hex\":\"{}\",\"message_hex\":\"{}\",\"skipped\":{},\"first_skipped\":{},\"queries\":[{}]}}",
-        json_str(label), json_str(module), supply, if data.len() <= 4096 { hex(data) } else { String::from("(large)") },
-        hex(&msg.write_to_bytes_dyn().unwrap_or_default()), skipped, json_str(&first_skip), jq.join(","));
-    Ok(Some(CaseOut { coq, json, queries: accepted.len(), skipped, kinds, true_verdicts: trues }))
+    let rules = comp.build();
+    // function verdicts with the output computed by the module (fresh scanner)
+    let computed_funcs: std::collections::HashSet<String> = if funcs.is_empty() { Default::default() } else {
+        let mut sc0 = yara_x::Scanner::new(&rules);
+        let r = sc0.scan(data).map_err(|e| format!("scan: {e}"))?;
+        let matched: std::collections::HashSet<String> = r.matching_rules().map(|r| r.identifier().to_string()).collect();
+        matched
+    };
+    let mut sc = yara_x::Scanner::new(&rules);
+    let mut outs = vec![];
+    let n_steps = steps.len();
+    for (k, (sup, label)) in steps.into_iter().enumerate() {
+        let (expected, how): (Option<Box<dyn MessageDyn>>, &str) = match sup {
+            Supply::Computed => (None, "computed"),
+            Supply::Boxed(m) => { sc.set_module_output(m.clone_box()).map_err(|e| format!("set_module_output: {e}"))?; (Some(m), "set_module_output") }
+            Supply::Raw(m) => { let b = m.write_to_bytes_dyn().map_err(|e| e.to_string())?; sc.set_module_output_raw(module, &b).map_err(|e| format!("set_module_output_raw: {e}"))?; (Some(m), "set_module_output_raw") }
+        };
+        let res = sc.scan(data).map_err(|e| format!("scan: {e}"))?;
+        let matched: std::collections::HashSet<String> = res.matching_rules().map(|r| r.identifier().to_string()).collect();
+        let view = res.module_output(module).map(|m| m.clone_box());
+        let listed = res.module_outputs().any(|(name, _)| name == module);
+        // the message this scan must observe
+        let msg: Box<dyn MessageDyn> = match (&expected, &view) { (Some(m), _) => m.clone_box(), (None, Some(v)) => v.clone_box(), (None, None) => continue };
+        let mut views = vec![];
+        if expected.is_some() {
+            // the public view of the results is the supplied message
+            views.push(view.as_ref().map_or(false, |v| canon(&**v) == canon(&*msg)));
+            views.push(listed);
+        } else { views.push(listed); }
+        let mut it = Interner::new();
+        let ty = coq_msg_ty(md, &mut it, 0);
+        let val = coq_msg(&*msg, &mut it);
+        let (mut qs, mut jq, mut kinds, mut trues) = (vec![], vec![], vec![], 0);
+        for (i, text, idx) in &accepted {
+            let v = matched.contains(&format!("q{}", i));
+            if v { trues += 1; }
+            qs.push(format!("({}, {}, {})", coq_query(&queries[*i], &mut it), coq_bool(v),
+                match idx { Some(l) => format!("Some {}", coq_list(l, |x| coq_nat(*x))), None => "None".into() }));
+            jq.push(format!("[{},{},{}]", json_str(text), v, match idx { Some(l) => format!("{:?}", l), None => "null".into() }));
+            kinds.push(match &queries[*i] { Query::Defined(_) => "q:defined", Query::Eq(..) => "q:eq", Query::Len(..) => "q:len", Query::Any(..) => "q:for-any", Query::All(..) => "q:for-all",
+                Query::MapAny(..) => "q:map-for-any", Query::StrLen(..) => "q:string-len", Query::Contains(..) => "q:contains", Query::StartsWith(..) => "q:startswith", Query::EndsWith(..) => "q:endswith", Query::Func(..) => "q:function" });
+        }
+        let mut pairs = vec![];
+        let mut jp = vec![];
+        if expected.is_some() {
+            for (fk, cond) in &funcs {
+                let name = format!("f{}", fk);
+                let (c, s2) = (computed_funcs.contains(&name), matched.contains(&name));
+                // comparable only if the supplied message IS the module's own output for this data
+                if own.as_ref().map_or(false, |o| canon(&**o) == canon(&*msg)) { pairs.push(format!("({}, {})", coq_bool(c), coq_bool(s2))); jp.push(format!("[{},{},{}]", json_str(cond), c, s2)); kinds.push("q:function-pair"); }
+            }
+        }
+        let strs: Vec<String> = it.1.iter().enumerate().filter(|(_, b)| b.len() <= 64).map(|(i, b)| format!("({}, {})", coq_n(i as u64), coq_bytes(b))).collect();
+        let coq = format!("mk \"{}\" (fun nm => ({}, {}, [{}], [{}], [{}], [{}]))", module, ty, val, strs.join("; "), qs.join("; "), pairs.join("; "),
+            views.iter().map(|b| coq_bool(*b).to_string()).collect::<Vec<_>>().join("; "));
+        let label = if n_steps > 1 { format!("{}:scan{}:{}", label, k + 1, how) } else { label };
+        let json = format!("{{\"label\":{},\"module\":{},\"how\":{},\"scan_in_sequence\":{},\"data_hex\":\"{}\",\"message_hex\":\"{}\",\"skipped\":{},\"first_skipped\":{},\"views\":{:?},\"function_pairs\":[{}],\"queries\":[{}]}}",
+            json_str(&label), json_str(module), json_str(how), k + 1, if data.len() <= 4096 { hex(data) } else { String::from("(large)") },
+            hex(&msg.write_to_bytes_dyn().unwrap_or_default()), skipped, json_str(&first_skip), views, jp.join(","), jq.join(","));
+        outs.push(CaseOut { label, coq, json, queries: accepted.len() + pairs.len(), skipped, kinds, true_verdicts: trues });
+    }
+    Ok(outs)
 }
 
 fn module_descriptor(module: &str) -> MessageDescriptor {
@@ -537,7 +716,7 @@ fn child(args: &[String]) -> i32 {
         let mut rng = Rng::new(seed.wrapping_mul(0x9E37_79B9).wrapping_add(idx as u64 * 7919 + 1));
         let label = job_label(job);
         emit(format!("B\t{}\t{}", idx, label));
-        let res = match job {
+        let res: Result<Vec<CaseOut>, String> = match job {
             Job::Builtin { module, path, supply, absent_arrays } => {
                 let data = match std::fs::read(path) { Ok(d) => d, Err(_) => { emit(format!("N\t{}\tunreadable", idx)); continue; } };
                 let rules = match yara_x::compile(format!("import \"{}\" rule x {{ condition: true }}", module).as_str()) { Ok(r) => r, Err(e) => { eprintln!("c12: module {module}: {e}"); return 2; } };
@@ -546,24 +725,43 @@ fn child(args: &[String]) -> i32 {
                 let Some(outp) = res.module_output(module) else { emit(format!("N\t{}\tbuiltin:no-output", idx)); continue; };
                 let msg = outp.clone_box();
                 if msg.compute_size_dyn() > 60_000 { emit(format!("N\t{}\tbuiltin:output-too-large-skipped", idx)); continue; }
-                run_case(module, &*msg, &data, *supply, &label, &mut rng, max_q, *absent_arrays)
+                let md = msg.descriptor_dyn();
+                let lab = label.split(' ').next().unwrap().to_string();
+                let steps = if *supply {
+                    // supplied, then computed, then supplied again through the other entry point
+                    vec![(Supply::Boxed(msg.clone_box()), lab.clone()), (Supply::Computed, lab.clone()), (Supply::Raw(msg.clone_box()), lab.clone())]
+                } else { vec![(Supply::Computed, lab.clone())] };
+                run_steps(module, &md, &data, steps, &mut rng, max_q, *absent_arrays, *supply)
             }
             Job::Synthetic(i) => {
                 let (module, md) = if i % 4 == 3 { ("test_proto3", &d3) } else { ("test_proto2", &d2) };
-                let mut msg = if *i < 2 { md.new_instance() } else { gen_msg(md, &mut rng, 0) };
-                // proto2 required fields must be set (the scanner asserts is_initialized in debug builds)
-                for fd in md.fields() { if fd.is_required() && !fd.has_field(&*msg) { if let RuntimeFieldType::Singular(rt) = fd.runtime_field_type() { fd.set_singular_field(&mut *msg, gen_scalar(&rt, &mut rng)); } } }
-                run_case(module, &*msg, b"", true, &label, &mut rng, max_q, false)
+                let mut mk_msg = |rng: &mut Rng, empty: bool| {
+                    let mut msg = if empty { md.new_instance() } else { gen_msg(md, rng, 0) };
+                    // proto2 required fields must be set (the scanner asserts is_initialized in debug builds)
+                    for fd in md.fields() { if fd.is_required() && !fd.has_field(&*msg) { if let RuntimeFieldType::Singular(rt) = fd.runtime_field_type() { fd.set_singular_field(&mut *msg, gen_scalar(&rt, rng)); } } }
+                    msg
+                };
+                let m1 = mk_msg(&mut rng, *i < 2);
+                let m3 = mk_msg(&mut rng, false);
+                let lab = label.split(' ').next().unwrap().to_string();
+                // supplied, then not supplied (the module's own output must show), then a different message supplied
+                let steps = if i % 2 == 0 { vec![(Supply::Boxed(m1), lab.clone()), (Supply::Computed, lab.clone()), (Supply::Raw(m3), lab.clone())] }
+                            else { vec![(Supply::Raw(m1), lab.clone()), (Supply::Computed, lab.clone()), (Supply::Boxed(m3), lab.clone())] };
+                run_steps(module, md, b"", steps, &mut rng, max_q, false, false)
             }
         };
         match res {
-            Ok(Some(c)) => {
-                let mut kc: std::collections::BTreeMap<&str, usize> = Default::default();
-                for k in &c.kinds { *kc.entry(k).or_default() += 1; }
-                let kinds = kc.iter().map(|(k, v)| format!("{}={}", k, v)).collect::<Vec<_>>().join(",");
-                emit(format!("E\t{}\t{}\t{}\t{}\t{}\t{}\t{}\t{}", idx, label.split(' ').next().unwrap(), c.queries, c.skipped, c.true_verdicts, kinds, c.coq, c.json));
+            Ok(cases) if cases.is_empty() => emit(format!("N\t{}\tnothing-to-ask", idx)),
+            Ok(cases) => {
+                let last = cases.len() - 1;
+                for (ci, c) in cases.into_iter().enumerate() {
+                    let mut kc: std::collections::BTreeMap<&str, usize> = Default::default();
+                    for k in &c.kinds { *kc.entry(k).or_default() += 1; }
+                    let kinds = kc.iter().map(|(k, v)| format!("{}={}", k, v)).collect::<Vec<_>>().join(",");
+                    // `E` closes the job, `C` is one more case of the same job
+                    emit(format!("{}\t{}\t{}\t{}\t{}\t{}\t{}\t{}\t{}", if ci == last { "E" } else { "C" }, idx, c.label, c.queries, c.skipped, c.true_verdicts, kinds, c.coq, c.json));
+                }
             }
-            Ok(None) => emit(format!("N\t{}\tnothing-to-ask", idx)),
             Err(e) => { eprintln!("c12: {label}: {e}"); return 2; }
         }
     }
@@ -608,7 +806,7 @@ pub fn run(args: &[String]) -> i32 {
                 "B" if f.len() >= 3 => { cur = Some((f[1].parse().unwrap_or(usize::MAX), f[2].to_string())); trace.clear(); }
                 "P" => trace.push(f[1..].join(" ")),
                 "N" if f.len() >= 3 => { stats.inc(&format!("skipped:{}", f[2].split(' ').take(2).collect::<Vec<_>>().join(" "))); cur = None; next = f[1].parse::<usize>().unwrap_or(next) + 1; }
-                "E" if f.len() >= 9 => {
+                "E" | "C" if f.len() >= 9 => {
                     let idx: usize = f[1].parse().unwrap_or(usize::MAX);
                     stats.inc(f[2]);
                     let q: u64 = f[3].parse().unwrap_or(0);
@@ -620,7 +818,7 @@ pub fn run(args: &[String]) -> i32 {
                     { use std::hash::{Hash, Hasher}; let mut h = std::collections::hash_map::DefaultHasher::new(); f[7].hash(&mut h); distinct.insert(h.finish()); }
                     if sample_json.len() < 2 && f[8].len() < 20000 { sample_json.push(f[8].to_string()); }
                     shards.push(f[7].to_string(), f[8].to_string());
-                    cur = None; next = idx + 1;
+                    if f[0] == "E" { cur = None; next = idx + 1; }
                 }
                 _ => {}
             }
@@ -632,7 +830,7 @@ pub fn run(args: &[String]) -> i32 {
                 stats.inc("CRASHED");
                 let json = format!("{{\"label\":{},\"index\":{},\"seed\":{},\"crashed\":true,\"exit\":{},\"trace\":[{}]}}", json_str(&label), idx, seed, json_str(&status),
                     trace.iter().map(|t| json_str(t)).collect::<Vec<_>>().join(","));
-                shards.push("mkCase \"\" (TInt I64) (VInt 0) [(QDefined [], false, None)]".to_string(), json);
+                shards.push("mkCase \"\" (TInt I64) (VInt 0) [] [(QDefined [], false, None)] [] []".to_string(), json);
                 next = idx + 1;
             }
         } else if next == start {
